@@ -231,6 +231,9 @@ class _Gen:
                 node["fields"].append({"kind": "method", "key": k, "o": {}})
         if c.schema_validators and rng.random() < c.schema_validators:
             node["validators"] = [rng.choice(["pass", "pred", "fault"])]
+            if rng.random() < 0.35:
+                # several validators on one schema (registered one after the other; all of them count)
+                node["validators"] = rng.choice([["pass", "pred"], ["pred", "pass"], ["fault", "pred"], ["pass", "pass", "pred"], ["pred", "fault"]])
         return node
 
 
@@ -492,8 +495,8 @@ def _stable(text):
 
 
 def _register_validators(B, scope, node, prefix):
-    for vid in node.get("validators", ()):
-        fn = _schema_validator(B, vid, prefix.rstrip(".") or "<root>")
+    for i, vid in enumerate(node.get("validators", ())):
+        fn = _schema_validator(B, vid, (prefix.rstrip(".") or "<root>") + ("@%d" % i if i else ""))
         target = scope.get()
         if len(prefix) % 2 and hasattr(type(target), "validator"):
             with _quiet():
@@ -516,6 +519,14 @@ def _populate(B, sd, scope, node, prefix):
                 # a section that comes into being with its first field: schema["section.key"] = field
                 sub = _Scope(lambda scope=scope, key=key: scope.get()[key], scope, key, implicit=True)
                 _populate(B, sd, sub, f, tag + ".")
+            elif style is not None and not getattr(B, "has_env", True) and pick % 11 < 3:
+                # a section assembled on its own, inspected (reference paths read), and only then mounted: legitimate
+                # where no environment prefix has to be inherited (that needs top-down construction)
+                obj = Schema(dynamic=f.get("dynamic", False))
+                _populate(B, sd, _Scope(lambda obj=obj: obj), f, tag + ".")
+                for _, _, fld in cc.get_all_fields(obj):
+                    cc.item_ref_path(fld)
+                scope.add(key, obj, pick)
             else:
                 obj = Schema(dynamic=f.get("dynamic", False), env=f.get("env"))
                 scope.add(key, obj, pick)          # attach first: top-down, env prefixes inherit
@@ -538,9 +549,24 @@ def _populate(B, sd, scope, node, prefix):
     _register_validators(B, scope, node, prefix)
 
 
+def _has_env(sd):
+    def rec(node):
+        if node.get("env") is not None:
+            return True
+        for f in node["fields"]:
+            if f["kind"] == "schema":
+                if rec(f):
+                    return True
+            elif f.get("o", {}).get("env") is not None:
+                return True
+        return False
+    return rec(sd["root"]) or any(rec(t["schema"]) for t in sd.get("types", {}).values()) or any(rec(x) for x in sd.get("shared", {}).values())
+
+
 def build(sd):
     """Build fresh real schema objects (one 'process') from a descriptor."""
     B = Built()
+    B.has_env = _has_env(sd)
     # shared item schemas and config types are built on demand (depth first); descriptors are acyclic by
     # construction: a type or shared schema only refers to ones completed before it was started
     building = set()
@@ -608,7 +634,7 @@ def walk(sd, cfg, visit, node=None, path="", visit_cfg=None):
     for key, value in cfg:
         if key not in declared:
             name = key if isinstance(key, str) else repr(key)   # e.g. bytes keys from a BSON document
-            visit((path + "." if path else "") + name, {"kind": "any", "o": {}, "dynamic": True}, value)
+            visit((path + "." if path else "") + name, {"kind": "any", "o": {}, "dynamic": True, "rawkey": name}, value)
 
 
 _MISSING = object()
